@@ -417,6 +417,12 @@ pub fn process<I: BufRead, O: Write>(
                             }
                         }
                         if !found {
+                            if state != State::Active {
+                                // Text of a group that is not selected: only a directive at
+                                // the start of the line may matter, keep what precedes the quote
+                                uncommented_buf.push_str(left);
+                                break;
+                            }
                             // This is an unterminated string. Forbidden
                             return Err(Error::Syntax {
                                 filename: filename.clone(),
@@ -738,14 +744,15 @@ pub fn process<I: BufRead, O: Write>(
                             }
                         }
                         "#if" => {
-                            let expr = maybe_expr.ok_or_else(|| Error::Syntax {
-                                filename: filename.clone(),
-                                included_in: included_in.clone(),
-                                line,
-                                msg: "Expected expression after `#if`".to_string(),
-                            })?;
                             stack.push(state);
                             if state == State::Active {
+                                // The expression is only looked at when it decides something
+                                let expr = maybe_expr.ok_or_else(|| Error::Syntax {
+                                    filename: filename.clone(),
+                                    included_in: included_in.clone(),
+                                    line,
+                                    msg: "Expected expression after `#if`".to_string(),
+                                })?;
                                 if !context.evaluate(expr, line)? {
                                     state = State::Inactive;
                                 }
@@ -754,13 +761,13 @@ pub fn process<I: BufRead, O: Write>(
                             }
                         }
                         "#elif" => {
-                            let expr = maybe_expr.ok_or_else(|| Error::Syntax {
-                                filename: filename.clone(),
-                                included_in: included_in.clone(),
-                                line,
-                                msg: "Expected expression after `#elif`".to_string(),
-                            })?;
                             if state == State::Inactive {
+                                let expr = maybe_expr.ok_or_else(|| Error::Syntax {
+                                    filename: filename.clone(),
+                                    included_in: included_in.clone(),
+                                    line,
+                                    msg: "Expected expression after `#elif`".to_string(),
+                                })?;
                                 if context.evaluate(expr, line)? {
                                     state = State::Active;
                                 }
@@ -816,12 +823,15 @@ pub fn process<I: BufRead, O: Write>(
                             }
                         }
                         _ => {
-                            return Err(Error::Syntax {
-                                filename: filename.clone(),
-                                included_in: included_in.clone(),
-                                line,
-                                msg: "Unrecognised preprocessor directive".to_string(),
-                            });
+                            // Directives of other compilers may sit in groups that are not selected
+                            if state == State::Active {
+                                return Err(Error::Syntax {
+                                    filename: filename.clone(),
+                                    included_in: included_in.clone(),
+                                    line,
+                                    msg: "Unrecognised preprocessor directive".to_string(),
+                                });
+                            }
                         }
                     }
                 } else if state == State::Active {
